@@ -21,32 +21,38 @@ class VResult:
         self.idx = idx
 
     def get(self, timeout=None):
-        self.pool._flush()
+        self.pool._demand(self.idx)
         kind, val = self.pool._results[self.idx]
         if kind == "exc":
             raise val
         return val
 
     def wait(self, timeout=None):
-        self.pool._flush()
+        self.pool._demand(self.idx)
 
     def ready(self):
-        return self.idx in self.pool._results
+        return self.pool._poll(self.idx)
 
     def successful(self):
-        self.pool._flush()
+        if not self.pool._poll(self.idx):
+            raise ValueError("not ready")
         return self.pool._results[self.idx][0] == "ok"
 
 
 class VirtualPool:
     """In-process stand-in for multiprocessing.Pool with the same copy
     semantics (arguments and results travel through pickle) and a scripted
-    completion order.  Tasks submitted since the last flush form a *batch*
-    (one round of the main loop); they are executed, in the scripted order, at
-    the first .get()/.wait().
+    schedule.  Tasks submitted since the previous batch form a *batch* (one
+    round of the main loop).  The script of a batch is (perm, eager):
+    the tasks complete in the order perm; the first `eager` of them have
+    completed by the time the parent first looks at any result; the others
+    complete only when the parent blocks on one of them (.get/.wait complete
+    tasks in perm order up to the requested one) or polls (.ready answers,
+    then one more task completes).  This covers every state "a prefix of the
+    completion order has finished" that a gather routine can observe.
 
-    orders: dict batch_index -> permutation (list of positions in the batch),
-            missing = submission order.
+    orders: dict batch_index -> perm  or  (perm, eager); missing = submission
+            order, all eager.
     fault:  (batch_index, position, exception instance) or None.
     """
 
@@ -57,8 +63,11 @@ class VirtualPool:
         self.log = log if log is not None else []
         self._tasks = []
         self._results = {}
-        self._batch_start = 0
+        self._batch_start = 0      # first task of the open batch
+        self._batch_end = 0        # one past the last task of the open batch
+        self._queue = []           # remaining completion order (absolute indices) of the open batch
         self._batch_no = 0
+        self._last_order = []
         self.closed = False
         self.terminated = False
         self.joined = False
@@ -95,41 +104,83 @@ class VirtualPool:
 
     def imap_unordered(self, func, iterable, chunksize=1):
         rs = [self.apply_async(func, (x,)) for x in iterable]
-        self._flush()
-        order = self._last_order
-        return (rs[i].get() for i in order)
+        self._open()
+        order = [i - self._batch_start for i in self._last_order]
+        base = self._batch_start
+        return (rs[i].get() for i in order if 0 <= i < len(rs))
 
     # -- execution
-    def _flush(self):
-        n = len(self._tasks) - self._batch_start
-        if n == 0:
+    def _open(self):
+        """freeze the tasks submitted so far into a batch (if the previous one is finished)"""
+        if self._queue:
+            if self._batch_end == len(self._tasks):
+                return
+            self._drain()                   # new submissions while a batch is open: finish the old one first
+        if self._batch_end == len(self._tasks):
             return
-        order = self.orders.get(self._batch_no)
-        if order is None:
-            order = list(range(n))
-        if sorted(order) != list(range(n)):
-            raise HarnessError(f"completion-order script {order} does not fit a batch of {n} tasks")
-        self._last_order = list(order)
-        for pos in order:
-            idx = self._batch_start + pos
-            func, (args, kwds), cb, ecb = self._tasks[idx]
-            self.log.append(("run", self._batch_no, pos))
-            try:
-                if self.fault is not None and self.fault[0] == self._batch_no and self.fault[1] == pos:
-                    raise pickle.loads(pickle.dumps(self.fault[2]))
-                val = func(*args, **kwds)
-                val = pickle.loads(pickle.dumps(val))
-                self._results[idx] = ("ok", val)
-                if cb:
-                    cb(val)
-            except HarnessError:
-                raise
-            except Exception as e:           # like the real pool: shipped back, re-raised at get()
-                self._results[idx] = ("exc", e)
-                if ecb:
-                    ecb(e)
-        self._batch_start = len(self._tasks)
+        self._batch_start = self._batch_end
+        self._batch_end = len(self._tasks)
+        n = self._batch_end - self._batch_start
+        script = self.orders.get(self._batch_no)
+        eager = n
+        if script is None:
+            perm = list(range(n))
+        elif len(script) == 2 and isinstance(script[0], (list, tuple)):
+            perm, eager = list(script[0]), int(script[1])
+        else:
+            perm = list(script)
+        if sorted(perm) != list(range(n)) or not 0 <= eager <= n:
+            raise HarnessError(f"schedule script {script} does not fit a batch of {n} tasks")
+        self._queue = [self._batch_start + p for p in perm]
+        self._last_order = list(self._queue)
+        self._this_batch = self._batch_no
         self._batch_no += 1
+        for _ in range(eager):
+            self._complete_next()
+
+    def _complete_next(self):
+        idx = self._queue.pop(0)
+        pos = idx - self._batch_start
+        func, (args, kwds), cb, ecb = self._tasks[idx]
+        self.log.append(("run", self._this_batch, pos))
+        try:
+            if self.fault is not None and self.fault[0] == self._this_batch and self.fault[1] == pos:
+                raise pickle.loads(pickle.dumps(self.fault[2]))
+            val = func(*args, **kwds)
+            val = pickle.loads(pickle.dumps(val))
+            self._results[idx] = ("ok", val)
+            if cb:
+                cb(val)
+        except HarnessError:
+            raise
+        except Exception as e:           # like the real pool: shipped back, re-raised at get()
+            self._results[idx] = ("exc", e)
+            if ecb:
+                ecb(e)
+
+    def _drain(self):
+        while self._queue:
+            self._complete_next()
+
+    def _demand(self, idx):
+        self._open()
+        while idx not in self._results:
+            if not self._queue:
+                raise HarnessError(f"task {idx} is not in any batch")
+            self._complete_next()
+
+    def _poll(self, idx):
+        self._open()
+        if idx in self._results:
+            return True
+        if self._queue:
+            self._complete_next()           # time passes while the parent polls
+            return False if idx not in self._results else False
+        return False
+
+    def _flush(self):
+        self._open()
+        self._drain()
 
     # -- life cycle
     def close(self):
@@ -143,6 +194,8 @@ class VirtualPool:
     def join(self):
         if not (self.closed or self.terminated):
             raise ValueError("Pool is still running")
+        if self.closed and not self.terminated:
+            self._flush()                   # close+join lets outstanding work finish
         self.joined = True
         self.log.append(("join",))
 
